@@ -27,6 +27,7 @@ import GluonModel.Tokenizer
 import GluonModel.Proofs.TokenizerUtf8
 import GluonModel.Proofs.TokenizerScan
 import GluonModel.Proofs.TokenizerAll
+import GluonModel.Proofs.TokenizerNum
 
 namespace GluonModel.Props.C09
 open GluonModel.LayoutAlgo GluonModel.SpanArith
@@ -248,23 +249,17 @@ example : (shrinkTree (.node ⟨1, 9⟩ [.leaf ⟨1, 2⟩, .leaf ⟨4, 6⟩])).s
 /-! ## The tokenizer (`GluonModel.Tokenizer`, a byte-level transcription of parser/src/token.rs +
 str_suffix.rs in which every slice / `restore_char` / `unwrap` is a checked operation)
 
-Full statement wanted (NOT proved in this form; checked by the exact correspondence with the real
-tokenizer, which never showed `panic`/`hang`/`fuel`):
+`tokenize_total` below is the full statement: for every `&str` (= the UTF-8 encoding of any list
+of Unicode scalars) the calls of `next` reach `EOF` within `len + 1` calls — never `panic`, never
+`hang`, never `fuel`.  Every scanner, the dispatcher and the driver are proved
+(Proofs/TokenizerUtf8, TokenizerScan, TokenizerAll, TokenizerNum).
 
-    theorem tokenize_total (cs : List Nat) (h : ∀ c ∈ cs, isScalar c) :
-        ∃ l, (tokenize (encodeAll cs).toArray).fin = .eof l
+Still wanted, NOT proved (the scanner statements carry the end position only, not the item spans):
 
-    theorem token_spans_in_bounds …  : every item's start/end is a scalar boundary, start ≤ end ≤ len
-    theorem token_spans_weakly_ordered … : end of item i ≤ start of item i+1
-
-Proved below: `tokenize_total_partial` = the statement above under the single hypothesis
-`NumericTotal` (the scanner `numeric_literal` returns on a scalar boundary); unconditionally for
-every text without decimal digits (`tokenize_total_digit_free`); `next_total_partial` for one
-call.  Every other scanner and the dispatcher are proved (Proofs/TokenizerAll.lean).  Missing for
-`NumericTotal`: `float.parse().unwrap()` needs "the slice is `-?digits.digits*`" and
-`to_digit(16).expect` needs "all bytes the scan stepped over are hex digits" (`scanUntil_over`
-gives the pointwise fact; the list-level `takeWhile`/`dropWhile` decomposition is not done).
-The span theorems are not proved (the scanner statements carry the end position only). -/
+    theorem token_spans_in_bounds …       : every item's start/end is a scalar boundary, start ≤ end ≤ len
+    theorem token_spans_weakly_ordered …  : end of item i ≤ start of item i+1
+      (only weakly: `7T` yields an IntLiteral with the empty span 1..1; `#foo+` is an Operator whose
+       span is the `#` alone — both pinned by fixed correspondence cases) -/
 section Tokenizer
 open GluonModel.Tokenizer
 
@@ -322,7 +317,22 @@ theorem next_total_partial (inp : Input) (hnum : NumericTotal inp) (l : Tokenize
     (errs : List SErr) (hv : VAt inp l.abs) : NextOK inp l (next inp l errs) :=
   next_total ⟨fun _ _ _ hv _ => rawStringLiteral_total hv, hnum⟩ _ l errs rfl hv
 
-/-- `tokenize_total`, conditional on the one scanner not yet proved: if `numeric_literal` is total
+/-- **The tokenizer never panics, never hangs, and ends within `len + 1` calls — for every
+`&str`.**  (`numeric_literal`: `float.parse().unwrap()` only ever sees `-?digits.digits*`,
+`to_digit(16).expect` only hex digits, `restore_char` on the lookahead only an ASCII byte.) -/
+theorem tokenize_total (cs : List Nat) (h : ∀ c ∈ cs, isScalar c) :
+    ∃ e, (tokenize (encodeAll cs).toArray).fin = .eof e :=
+  tokenize_total_all cs h
+
+/-- token.rs:685 `numeric_literal`, entered the way `next` enters it (first byte a digit, or `-`
+before a digit), returns on a scalar boundary for every text: none of its unwraps can fire. -/
+theorem numeric_literal_total (inp : Input) : NumericTotal inp := numericLiteral_total
+
+/-- a text with every numeric shape: `-1.5 0xfF 7b 7T 1.x` -/
+example : ∀ c ∈ [45, 49, 46, 53, 32, 48, 120, 102, 70, 32, 55, 98, 32, 55, 84, 32, 49, 46, 120], isScalar c := by
+  intro c hc; simp at hc; unfold isScalar; omega
+
+/-- (kept from the previous round) `tokenize_total`, conditional on the one scanner then unproved: if `numeric_literal` is total
 (`NumericTotal`: it returns on a scalar boundary whenever it is entered the way `next` enters it),
 then for EVERY `&str` the calls of `next` reach `EOF` within `len + 1` calls — never `panic`,
 never `hang`, never `fuel`. -/
